@@ -1,4 +1,4 @@
-from lib.vrun import Script, parts
+from lib.vrun import Script, XH, parts
 
 F = "C17_sinks.py"
 
@@ -11,6 +11,7 @@ def spec(tier):
                  what="#if / #elif conditions, object- and function-like macro values, initial definitions and include/use names built from <=2 (quick) / <=3 (thorough) hostile tokens (import expressions, attribute access, calls, full-width identifiers, lambda, open(), exec/eval): monitors on eval/exec/compile/__import__/open(write)/os.*/subprocess.*/shutil.* never fire; text reaching eval/compile must lie in the safe expression language (z3 membership)")
     obs += parts("H.server", F, "server", 16, T, path_timeout=250,
                  what="the same documents through the real server (didOpen, diagnostics, queries, didChange, didSave, didClose) with the monitors armed")
+    obs += [XH("H.docfields", F, "docfields", 120, what="doc comments containing str.format replacement fields (attribute/index chains, conversions, width), %-directives and shell syntax on a variable, a procedure, its argument and the specific procedure of a generic interface: hover, completion and signature help return them verbatim - nothing is evaluated, no error")]
     return dict(
         obligations=obs,
         functions=["preprocess_file", "eval_pp_if", "eval_pp_expr", "FortranFile.parse", "FortranFile.check_file",
